@@ -1,6 +1,8 @@
 COMMON = ['m_pre.c', 'qt_core.c', 'qt_dom.c', 'm_common.c']
 def I(name, entry, **kw):
     d = dict(name=name, entry=entry, unwind=8, timeout_s=240, mem_gb=4, cdefs={'C03_MAXBYTES': 4}); d.update(kw); return d
+TD = {'C03_MAXBYTES': 4, 'C03_TCAP': 34}
+TB = 'one read of arbitrary length at an arbitrary position of a stream window of [xml-decl] [ws] header [ws] (stanza [ws]){0..2} [close]'
 SPEC = dict(
     property='C03',
     groups=[
@@ -12,8 +14,15 @@ SPEC = dict(
              ]),
         dict(name='text', harness='h_text.cpp', tus=[], models=COMMON + ['m_text.c'], cxxdefs={'C03_STANZAS': 2},
              instances=[
-                 I('text_1read', 'h_text_1', cdefs={'C03_MAXBYTES': 4}, bound='whole stream in one read'),
-                 I('text_2reads', 'h_text_2', cdefs={'C03_MAXBYTES': 4}, bound='2 reads'),
+                 I('step_complete_start', 'h_step_complete_start', cdefs=TD, bound=TB),
+                 I('step_complete_mid', 'h_step_complete_mid', cdefs=TD, bound=TB),
+                 I('step_partial_start', 'h_step_partial_start', cdefs=TD, bound=TB),
+                 I('step_partial_mid', 'h_step_partial_mid', cdefs=TD, bound=TB),
+             ]),
+        dict(name='restart', harness='h_restart.cpp', tus=[], models=COMMON + ['m_text.c', 'm_restart.c'],
+             instances=[
+                 I('restart_encrypted', 'h_restart_encrypted', cdefs=TD, bound='arbitrary receiver state: buffered text, cached header <= 3 units, pending bytes <= 3'),
+                 I('restart_connected', 'h_restart_connected', cdefs=TD, bound='as restart_encrypted, direct TLS or not'),
              ]),
     ],
     bounds=[], assumptions=[], outside=[],
